@@ -22,7 +22,8 @@ Both directions of the refactoring "explicit loop <-> comprehension" therefore m
 
 Three smaller idioms are brought to one spelling as well: `x = np.empty(s, d); x[:] = v` is `x = np.full(s, v, dtype=d)`;
 `if k not in d: d[k] = c` followed by `d[k] += w` is `d[k] = d.get(k, c) + w`; `while t: if c: break; ...` is
-`while t and not c: ...`."""
+`while t and not c: ...`; a search loop written with a flag (`f = True; while f: if c: X; f = False else: S`) is `while not c: S` followed by `X`;
+`if k in d: t = d[k] else: t = c` is `t = d.get(k, c)`; an object array filled by index that is only iterated afterwards is the list of its elements."""
 from __future__ import annotations
 import ast
 import copy
@@ -277,6 +278,117 @@ def _leading_break(loop):
     return True
 
 
+def _refs(node, name):
+    return any(isinstance(n, ast.Name) and n.id == name for n in ast.walk(node))
+
+
+def _flag_loop(res, loop, rest):
+    """F = True ; while F: if C: BODY; F = False  else: STEP      ==>      while not C: STEP ; BODY
+    (a search loop written with a flag).  F is set just before the loop, read by nothing else and dead afterwards."""
+    if not (isinstance(loop, ast.While) and not loop.orelse and isinstance(loop.test, ast.Name) and len(loop.body) == 1):
+        return None
+    flag = loop.test.id
+    iff = loop.body[0]
+    if not (isinstance(iff, ast.If) and iff.orelse and iff.body):
+        return None
+    last = iff.body[-1]
+    if not (isinstance(last, ast.Assign) and len(last.targets) == 1 and isinstance(last.targets[0], ast.Name) and last.targets[0].id == flag
+            and isinstance(last.value, ast.Constant) and last.value.value is False):
+        return None
+    body, step = iff.body[:-1], iff.orelse
+    if _refs(iff.test, flag) or any(_refs(b, flag) for b in body) or any(_refs(b, flag) for b in step):
+        return None
+    if any(isinstance(n, (ast.Break, ast.Continue, ast.Return, ast.Yield, ast.YieldFrom)) for b in body + step for n in ast.walk(b)):
+        return None
+    # F = True among the simple assignments directly before the loop
+    k = None
+    for j in range(len(res) - 1, -1, -1):
+        st = res[j]
+        if not (isinstance(st, ast.Assign) and len(st.targets) == 1 and isinstance(st.targets[0], ast.Name)):
+            break
+        if st.targets[0].id == flag:
+            if isinstance(st.value, ast.Constant) and st.value.value is True:
+                k = j
+            break
+    if k is None or _live_after(flag, rest):
+        return None
+    if any(_refs(res[j], flag) for j in range(k + 1, len(res))):
+        return None
+    neg = ast.UnaryOp(op=ast.Not(), operand=iff.test)
+    if isinstance(iff.test, ast.Compare) and len(iff.test.ops) == 1 and type(iff.test.ops[0]) in (ast.Eq, ast.NotEq, ast.Is, ast.IsNot, ast.In, ast.NotIn):
+        flip = {ast.Eq: ast.NotEq, ast.NotEq: ast.Eq, ast.Is: ast.IsNot, ast.IsNot: ast.Is, ast.In: ast.NotIn, ast.NotIn: ast.In}
+        neg = ast.Compare(left=iff.test.left, ops=[flip[type(iff.test.ops[0])]()], comparators=iff.test.comparators)
+    new_loop = ast.While(test=neg, body=step, orelse=[])
+    ast.copy_location(new_loop, loop)
+    ast.fix_missing_locations(new_loop)
+    return k, [new_loop] + body
+
+
+def _membership_default(st):
+    """if K in D: T = D[K] else: T = C      ==>      T = D.get(K, C)       (K a name or constant, C a constant)"""
+    if not (isinstance(st, ast.If) and len(st.body) == 1 and len(st.orelse) == 1 and isinstance(st.test, ast.Compare) and len(st.test.ops) == 1
+            and isinstance(st.test.ops[0], (ast.In, ast.NotIn)) and isinstance(st.test.comparators[0], ast.Name)
+            and isinstance(st.test.left, (ast.Name, ast.Constant))):
+        return None
+    d, k = st.test.comparators[0].id, st.test.left
+    hit, miss = (st.body[0], st.orelse[0]) if isinstance(st.test.ops[0], ast.In) else (st.orelse[0], st.body[0])
+    if not (isinstance(hit, ast.Assign) and isinstance(miss, ast.Assign) and len(hit.targets) == 1 and len(miss.targets) == 1
+            and ast.dump(hit.targets[0]) == ast.dump(miss.targets[0]) and isinstance(miss.value, ast.Constant)):
+        return None
+    v = hit.value
+    if not (isinstance(v, ast.Subscript) and isinstance(v.value, ast.Name) and v.value.id == d and ast.dump(v.slice) == ast.dump(k)):
+        return None
+    if _refs(hit.targets[0], d) and not isinstance(hit.targets[0], ast.Name):
+        return None
+    get = ast.Call(func=ast.Attribute(value=ast.Name(id=d, ctx=ast.Load()), attr='get', ctx=ast.Load()), args=[copy.deepcopy(k), copy.deepcopy(miss.value)], keywords=[])
+    new = ast.Assign(targets=[copy.deepcopy(hit.targets[0])], value=get)
+    ast.copy_location(new, st)
+    ast.fix_missing_locations(new)
+    return new
+
+
+def _object_array(a, loop, rest):
+    """A = np.empty(N, dtype="O") ; for I in range(N): A[I] = E      ==>      A = [E for I in range(N)]
+    when everything that reads A afterwards only iterates it (`sep.join(A)`, `list(A)`, `for x in A`)"""
+    if not (isinstance(a, ast.Assign) and len(a.targets) == 1 and isinstance(a.targets[0], ast.Name) and _is_np(a.value, ('empty',)) and a.value.args):
+        return None
+    call = a.value
+    dt = call.args[1] if len(call.args) == 2 else next((k.value for k in call.keywords if k.arg == 'dtype'), None)
+    if not (dt is not None and ((isinstance(dt, ast.Constant) and dt.value in ('O', 'object')) or (isinstance(dt, ast.Name) and dt.id == 'object'))):
+        return None
+    name = a.targets[0].id
+    if not (isinstance(loop, ast.For) and not loop.orelse and isinstance(loop.target, ast.Name) and len(loop.body) == 1
+            and isinstance(loop.iter, ast.Call) and isinstance(loop.iter.func, ast.Name) and loop.iter.func.id == 'range' and len(loop.iter.args) == 1
+            and ast.dump(loop.iter.args[0]) == ast.dump(call.args[0])):
+        return None
+    st = loop.body[0]
+    if not (isinstance(st, ast.Assign) and len(st.targets) == 1 and isinstance(st.targets[0], ast.Subscript) and isinstance(st.targets[0].value, ast.Name)
+            and st.targets[0].value.id == name and isinstance(st.targets[0].slice, ast.Name) and st.targets[0].slice.id == loop.target.id
+            and not _refs(st.value, name)):
+        return None
+    # every later read of A only iterates it
+    for r in rest:
+        parents = {}
+        for n in ast.walk(r):
+            for ch in ast.iter_child_nodes(n):
+                parents[id(ch)] = n
+        for n in ast.walk(r):
+            if isinstance(n, ast.Name) and n.id == name and isinstance(n.ctx, ast.Load):
+                par = parents.get(id(n))
+                ok = isinstance(par, ast.Call) and len(par.args) == 1 and par.args[0] is n and not par.keywords and (
+                    (isinstance(par.func, ast.Attribute) and par.func.attr == 'join') or (isinstance(par.func, ast.Name) and par.func.id in ('list', 'tuple')))
+                ok = ok or (isinstance(par, (ast.For, ast.comprehension)) and par.iter is n)
+                if not ok:
+                    return None
+        if isinstance(r, ast.Assign) and any(isinstance(t, ast.Name) and t.id == name for t in r.targets):
+            break           # the name is bound to something else from here on
+    comp = ast.ListComp(elt=copy.deepcopy(st.value), generators=[ast.comprehension(target=copy.deepcopy(loop.target), iter=copy.deepcopy(loop.iter), ifs=[], is_async=0)])
+    new = ast.Assign(targets=[ast.Name(id=name, ctx=ast.Store())], value=comp)
+    ast.copy_location(new, a)
+    ast.fix_missing_locations(new)
+    return new
+
+
 def normalise_function(fn: ast.FunctionDef, is_pure_call=None):
     """in place; returns the number of loops rewritten"""
     if is_pure_call is None:
@@ -299,6 +411,25 @@ def normalise_function(fn: ast.FunctionDef, is_pure_call=None):
                 count[0] += 1
             if _full_keyword(st):
                 count[0] += 1
+            md = _membership_default(st)
+            if md is not None:
+                st = md
+                count[0] += 1
+            fl = _flag_loop(res, st, stmts[i + 1:])
+            if fl is not None:
+                k_, new_ = fl
+                del res[k_]
+                res.extend(new_)
+                count[0] += 1
+                i += 1
+                continue
+            if res and isinstance(st, ast.For):
+                oa = _object_array(res[-1], st, stmts[i + 1:])
+                if oa is not None:
+                    res[-1] = oa
+                    count[0] += 1
+                    i += 1
+                    continue
             if res:
                 merged = _fill_to_full(res[-1], st) or _dict_accumulate(res[-1], st)
                 if merged is not None:
